@@ -5,10 +5,10 @@ T = "Tinode.Props.C09."
 PROP = dict(
     id="C09",
     level_text='Kernel-checked Lean theorems over noteMarks / noteValid / notePass / opNote: a note never moves a mark back, keeps 0 <= read <= recv <= lastId in the loaded topic, touches nothing but the two marks; stale, duplicate, invalid, future and unauthorised notes leave the whole context unchanged (no reply, no side effect); typing notes need W, read/recv need R; the relayed notification reaches exactly the attached sessions of readers, never the origin, a typing note never the typist; a publish moves both marks of its author to the new number. The stored marks do NOT keep read <= recv (witness by decide: known finding F2, pinned by existing tests).',
-    level_note='Group, channel-enabled and peer-to-peer topics; a relayed note never reaches a session attached as a channel reader (theorem no_info_to_channel_readers). Monotonicity of the stored marks across requests is decided by the monitor on histories.',
+    level_note='Over histories (Props/C09h.lean): for EVERY sequence, of any length, of notes (any kind, any number, from anybody, the store call failing or not) and publishes (accepted, refused, failing in the store) every record of the loaded group topic keeps 0 <= read <= recv <= last (history_marks, by induction over the sequence; opNote_live / opPub_live say what each handler leaves in memory). Group, channel-enabled and peer-to-peer topics; a relayed note never reaches a session attached as a channel reader (theorem no_info_to_channel_readers). Monotonicity of the stored marks across requests is decided by the monitor on histories.',
     technique='Lean 4 proof (omega over the transcribed mark arithmetic, handler case analysis, negation witness by decide) + differential correspondence of the world model + history monitor',
-    modules=["TinodeVerif.Props.C09", "TinodeVerif.Props.C02c"],
-    theorems=[T + n for n in ['note_marks_forward', 'note_marks_bounded', 'note_marks_only_marks', 'stale_read_dropped', 'stale_recv_dropped', 'note_valid_iff', 'invalid_note_no_effect', 'refused_note_no_effect', 'note_pass_iff', 'fanoutInfo_eq', 'info_recipient_iff', 'pub_marks_jump', 'read_note_leaves_stored_recv_behind']] + ["Tinode.Props.C02.fanoutInfoC_eq", "Tinode.Props.C02.no_info_to_channel_readers"],
+    modules=["TinodeVerif.Props.C09", "TinodeVerif.Props.C09h", "TinodeVerif.Props.C02c"],
+    theorems=[T + n for n in ['note_marks_forward', 'note_marks_bounded', 'note_marks_only_marks', 'stale_read_dropped', 'stale_recv_dropped', 'note_valid_iff', 'invalid_note_no_effect', 'refused_note_no_effect', 'note_pass_iff', 'fanoutInfo_eq', 'info_recipient_iff', 'pub_marks_jump', 'pub_keeps_marks', 'note_keeps_marks', 'opNote_live', 'opPub_live', 'step_marks', 'history_marks', 'read_note_leaves_stored_recv_behind']] + ["Tinode.Props.C02.fanoutInfoC_eq", "Tinode.Props.C02.no_info_to_channel_readers"],
     streams=[world.world_stream("C09")],
     seeds=dict(quick=1, thorough=4),
     rule="random histories of 30-120 requests per case (420 cases quick, 600 thorough per seed, every third a clause scenario with random parameters) over 4 users, 7 sessions (two per user, "
